@@ -53,15 +53,16 @@ const (
 	outLost             // request never reaches the store (connection dies before it is sent)
 	outFailed           // the store answers an error without executing (connection survives)
 	outReplyLost        // request executed, reply never arrives (connection dies after execution)
+	outDelayed          // request executed at once, its reply arrives only after the caller's context deadline (one renew interval, ttl/3, later); the connection stays open
 	nOuts
 )
 
 var (
 	c15OpNames  = []string{"campaign", "renew", "resign", "leader", "next"}
-	c15OutNames = []string{"ok", "lost", "failed", "replylost"}
+	c15OutNames = []string{"ok", "lost", "failed", "replylost", "delayed"}
 )
 
-// event encoding: contender*32 + op*4 + outcome; 1000+k = let the clock advance by step k.
+// event encoding: contender*64 + op*8 + outcome; 1000+k = let the clock advance by step k.
 // op "next" = the store handles the next request of the contender's call in flight (a call that
 // needs several store requests is interleaved with everything else request by request).
 const evSleep = 1000
@@ -85,7 +86,7 @@ func c15EventName(e int) string {
 	if e >= evSleep {
 		return c15StepNames[e-evSleep]
 	}
-	return fmt.Sprintf("c%d.%s.%s", e/32+1, c15OpNames[(e%32)/4], c15OutNames[e%4])
+	return fmt.Sprintf("c%d.%s.%s", e/64+1, c15OpNames[(e%64)/8], c15OutNames[e%8])
 }
 
 func c15ParseEvent(s string) (int, error) {
@@ -116,15 +117,18 @@ func c15ParseEvent(s string) (int, error) {
 	if op < 0 || out < 0 {
 		return 0, fmt.Errorf("bad event %q", s)
 	}
-	return (c-1)*32 + op*4 + out, nil
+	return (c-1)*64 + op*8 + out, nil
 }
 
-func c15Alphabet(n int, steps []int) []int {
+func c15Alphabet(n int, steps []int, delayed bool) []int {
 	var ev []int
 	for c := 0; c < n; c++ {
 		for op := 0; op <= opNext; op++ {
 			for out := 0; out < nOuts; out++ {
-				ev = append(ev, c*32+op*4+out)
+				if out == outDelayed && !delayed {
+					continue
+				}
+				ev = append(ev, c*64+op*8+out)
 			}
 		}
 	}
@@ -165,6 +169,7 @@ type c15Pending struct {
 	replies     []string
 	interleaved bool // another event happened between two of its requests
 	connDead    bool
+	grantAt     int64 // when one of its requests installed the caller's lease (-1: none did)
 	done        chan c15CallResult
 }
 
@@ -189,6 +194,7 @@ type c15Out struct {
 	faults     int
 	sleeps     int
 	pend       []bool // contenders with a call in flight in the reached state
+	leaked     bool   // goroutines of the code under test stayed blocked when the history ended
 	infeasible bool   // the history asks for an event that is not enabled
 }
 
@@ -402,7 +408,8 @@ func c15Run(t *testing.T, n, ttl int, events []int) (out c15Out) {
 			if p.nreq == 1 || (allOK && !p.interleaved && p.nreq > 0) {
 				// ---- the call was one atomic step of the history: the reference lease decides everything
 				grant := !held || pre.holder == ci
-				executed := allOK || p.fates[0] == outReplyLost
+				delayed := p.nreq == 1 && p.fates[0] == outDelayed // executed; the caller may have given up at its deadline or waited for its own late reply
+				executed := allOK || p.fates[0] == outReplyLost || delayed
 				answered := allOK
 				want := pre
 				if executed {
@@ -420,6 +427,9 @@ func c15Run(t *testing.T, n, ttl int, events []int) (out c15Out) {
 				}
 				if op == opCampaign || op == opRenew {
 					switch {
+					case delayed && told && !grant:
+						viol("a "+opn+" whose reply came late was answered with leadership although the store did not grant that request", "C15:granted-while-held:"+opn, det())
+					case delayed:
 					case !answered && told:
 						viol("a lost or failed "+opn+" was reported to the caller as success", "C15:lost-call-reported-leader:"+opn, det())
 					case answered && told && !grant:
@@ -441,7 +451,7 @@ func c15Run(t *testing.T, n, ttl int, events []int) (out c15Out) {
 				}
 				// a call that went through undisturbed must leave exactly the reference lease; after a lost reply it is
 				// unknown whether the implementation had more to do, each of its requests was judged on delivery
-				if allOK && !judgeStore([]c15Lease{want}, opn, fmt.Sprintf("c%d.%s", ci+1, opn), true) {
+				if (allOK || delayed) && !judgeStore([]c15Lease{want}, opn, fmt.Sprintf("c%d.%s", ci+1, opn), true) {
 					return false
 				}
 			} else {
@@ -460,7 +470,11 @@ func c15Run(t *testing.T, n, ttl int, events []int) (out c15Out) {
 			}
 			if op == opCampaign || op == opRenew {
 				if told {
+					// the lease period the instance may rely on runs from the moment the store granted it, not from the moment the answer arrived
 					c.believes, c.lastSucc = true, now()
+					if p.grantAt >= 0 {
+						c.lastSucc = p.grantAt
+					}
 				} else {
 					c.believes = false
 				}
@@ -496,6 +510,8 @@ func c15Run(t *testing.T, n, ttl int, events []int) (out c15Out) {
 				// was already pushed could be read before the connection is reset)
 				plan.Hold = true
 				p.connDead = true
+			case outDelayed:
+				plan.Hold = true
 			}
 			reqText := "(lost)"
 			if oc != outLost {
@@ -506,6 +522,21 @@ func c15Run(t *testing.T, n, ttl int, events []int) (out c15Out) {
 				if oc == outReplyLost {
 					plan.Hold = false
 					srv.KillConn(c.conn, true)
+				}
+				if oc == outDelayed {
+					// the request has been executed now; its reply arrives one renew interval later, just after the caller's
+					// context deadline has passed (a caller that ignores its context simply gets its own reply late)
+					plan.Hold = false
+					synctest.Wait()
+					time.Sleep(c15Step(0, ttl))
+					synctest.Wait()
+					out.sleeps++
+					for _, o := range cs {
+						if o.pend != nil && o != c {
+							o.pend.interleaved = true
+						}
+					}
+					srv.Release(c.conn, 0)
 				}
 				l := srv.Log()
 				last := l[len(l)-1]
@@ -522,7 +553,7 @@ func c15Run(t *testing.T, n, ttl int, events []int) (out c15Out) {
 			// ---- what this ONE request may do to the lease, whatever command it is
 			pre := effective(model, t0)
 			allowed := []c15Lease{pre}
-			if oc == outOK || oc == outReplyLost {
+			if oc == outOK || oc == outReplyLost || oc == outDelayed {
 				switch p.op {
 				case opCampaign, opRenew:
 					if pre.holder == -1 || pre.holder == ci {
@@ -538,6 +569,9 @@ func c15Run(t *testing.T, n, ttl int, events []int) (out c15Out) {
 				return false
 			}
 			model, _ = storeLease()
+			if (p.op == opCampaign || p.op == opRenew) && model.holder == ci && model.exp == t0+ttlMs {
+				p.grantAt = t0
+			}
 			select {
 			case r := <-p.done:
 				return finish(step, ci, r)
@@ -565,7 +599,7 @@ func c15Run(t *testing.T, n, ttl int, events []int) (out c15Out) {
 					return
 				}
 			} else {
-				ci, op, oc := e/32, (e%32)/4, e%4
+				ci, op, oc := e/64, (e%64)/8, e%8
 				c := cs[ci]
 				for j, o := range cs {
 					if j != ci && o.pend != nil {
@@ -582,20 +616,23 @@ func c15Run(t *testing.T, n, ttl int, events []int) (out c15Out) {
 						out.infeasible = true
 						return
 					}
-					p := &c15Pending{op: op, t0: t0, pre: model, done: make(chan c15CallResult, 1)}
+					p := &c15Pending{op: op, t0: t0, pre: model, grantAt: -1, done: make(chan c15CallResult, 1)}
 					c.pend = p
 					el := c.el
 					go func() {
+						// the deadline the syncer gives its election calls: one renew interval
+						cctx, ccancel := context.WithTimeout(ctx, c15Step(0, ttl))
+						defer ccancel()
 						var r c15CallResult
 						switch op {
 						case opCampaign:
-							r.role, r.err = el.Campaign(ctx)
+							r.role, r.err = el.Campaign(cctx)
 						case opRenew:
-							r.err = el.Renew(ctx)
+							r.err = el.Renew(cctx)
 						case opResign:
-							r.err = el.Resign(ctx)
+							r.err = el.Resign(cctx)
 						case opLeader:
-							r.info, r.err = el.Leader(ctx)
+							r.info, r.err = el.Leader(cctx)
 						}
 						p.done <- r
 					}()
@@ -675,7 +712,13 @@ func c15Run(t *testing.T, n, ttl int, events []int) (out c15Out) {
 		out.key = sb.String()
 	})
 	if msg != "" {
-		out.machinery = "bubble: " + msg
+		if strings.Contains(msg, "blocked goroutines remain") && out.machinery == "" && (out.key != "" || out.res != nil) {
+			// the code under test left a goroutine blocked for good (e.g. on a full reply channel): a leak, neither a
+			// lease violation nor a harness failure; everything judged inside the history stands
+			out.leaked = true
+		} else {
+			out.machinery = "bubble: " + msg
+		}
 	}
 	return
 }
@@ -694,22 +737,27 @@ func c15Result(n, ttl int, o c15Out, events int) mc.Result {
 type c15Plan struct {
 	n, ttl, depth int
 	steps         []int // clock steps (indices into c15StepNames)
+	delayed       bool  // the alphabet also has the fate "reply delayed beyond the caller's deadline"
 }
 
 func c15Plans(tier string) []c15Plan {
 	if tier == "thorough" {
 		return []c15Plan{
-			{2, 3, 10, []int{0, 1}},
-			{3, 3, 8, []int{0, 1}},
-			{2, 6, 8, []int{0, 1}},
-			{2, 3, 7, []int{0, 1, 2, 3}},
-			{3, 3, 6, []int{0, 2, 3}},
+			{2, 3, 10, []int{0, 1}, false},
+			{3, 3, 8, []int{0, 1}, false},
+			{2, 6, 8, []int{0, 1}, false},
+			{2, 3, 7, []int{0, 1, 2, 3}, false},
+			{3, 3, 6, []int{0, 2, 3}, false},
+			{2, 3, 8, []int{0, 1}, true},
+			{3, 3, 6, []int{0, 1}, true},
 		}
 	}
 	return []c15Plan{
-		{2, 3, 8, []int{0, 1}},
-		{3, 3, 6, []int{0, 1}},
-		{2, 3, 5, []int{0, 1, 2, 3}},
+		{2, 3, 8, []int{0, 1}, false},
+		{3, 3, 6, []int{0, 1}, false},
+		{2, 3, 5, []int{0, 1, 2, 3}, false},
+		{2, 3, 6, []int{0, 1}, true},
+		{3, 3, 4, []int{0, 1}, true},
 	}
 }
 
@@ -797,7 +845,7 @@ func runC15(t *testing.T, rep *mc.Reporter) {
 		if shard == 0 {
 			rep.Scenario()
 		}
-		alpha := c15Alphabet(pl.n, pl.steps)
+		alpha := c15Alphabet(pl.n, pl.steps, pl.delayed)
 		levels := []int{1}
 		// level 0: the initial state
 		init := c15Run(t, pl.n, pl.ttl, nil)
@@ -824,7 +872,7 @@ func runC15(t *testing.T, rep *mc.Reporter) {
 				}
 				pend := c15PendFromKey(fe.Key, pl.n)
 				for _, e := range alpha {
-					if e < evSleep && ((e%32)/4 == opNext) != pend[e/32] {
+					if e < evSleep && ((e%64)/8 == opNext) != pend[e/64] {
 						continue // not enabled: "next" needs a call in flight, a new call needs none
 					}
 					h := append(append([]int(nil), fe.Hist...), e)
@@ -834,7 +882,7 @@ func runC15(t *testing.T, rep *mc.Reporter) {
 					}
 					res := c15Result(pl.n, pl.ttl, o, len(h))
 					rep.Count("transitions", 1)
-					if e < evSleep && (e%32)/4 == opNext {
+					if e < evSleep && (e%64)/8 == opNext {
 						rep.Count("later_requests_of_a_call", 1)
 					}
 					names := make([]string, len(h))
@@ -932,7 +980,7 @@ func runC15(t *testing.T, rep *mc.Reporter) {
 			return
 		}
 		if shard == 0 {
-			rep.Note(fmt.Sprintf("plan %d: contenders=%d ttl=%ds steps=%v depth=%d: new canonical states per BFS level %v", pi, pl.n, pl.ttl, pl.steps, pl.depth, levels))
+			rep.Note(fmt.Sprintf("plan %d: contenders=%d ttl=%ds steps=%v delayed-fate=%v depth=%d: new canonical states per BFS level %v", pi, pl.n, pl.ttl, pl.steps, pl.delayed, pl.depth, levels))
 		}
 	}
 	runC15Ticker(t, rep, budget)
